@@ -150,7 +150,8 @@ def main(res, tier, rng, replay):
             res.hist('build_errors', str(e)[:50])
             continue
         ops = []
-        for o in G.random_ops(r, ins, r.randint(6, 24)):
+        raw_ops = G.random_ops(r, ins, r.randint(6, 24))
+        for o in raw_ops:
             ops += [('clk', 1)] * o[1] if o[0] == 'clk' else [o]
         summary = dict(plan=G.plan_summary(plan), inst_order=order,
                        ops=[(o[0], o[1].name, o[2]) if o[0] == 'poke' else o for o in ops])
@@ -170,6 +171,29 @@ def main(res, tier, rng, replay):
             nb.add(sysobj, ops, sim=sim, label=i)
         except D.NotDumpable:
             continue
+        # the same design and stimulus with the multi-cycle clk(n) calls NOT split: the enable of a gated domain is a design wire
+        # that may change between the edges of one call; every edge inside the call must gate on the value before THAT edge
+        try:
+            sys2, ins2, W2, leaves2 = G.build(plan, inst_order=order)
+            sim2 = sys2.getSimulator()
+            n2 = {w.name: w for w in D.all_wires(sys2)}
+            for o in raw_ops:
+                if o[0] == 'poke':
+                    n2[o[1].name].put(o[2])
+                else:
+                    sim2.clk(o[1])
+            sim.propagateAll()
+            sim2.propagateAll()
+            fin1 = {w.name: w.value for w in D.all_wires(sysobj)}
+            fin2 = {nm: w.value for nm, w in n2.items()}
+            if fin1 != fin2 or sim.total_clks != sim2.total_clks:
+                diff = {k: (fin1[k], fin2.get(k)) for k in fin1 if fin1[k] != fin2.get(k)}
+                res.fail('inside a multi-cycle clk(n) call the domains are not gated edge by edge: the state differs from the same stimulus '
+                         'applied with single-cycle calls',
+                         dict(summary, raw_ops=[(o[0], o[1].name, o[2]) if o[0] == 'poke' else o for o in raw_ops],
+                              differing_wires_single_vs_multi=dict(list(diff.items())[:8]), total_clks=(sim.total_clks, sim2.total_clks)))
+        except Exception as e_:
+            res.hist('simulation_errors', f'unsplit:{type(e_).__name__}:{str(e_)[:40]}')
         gated = sum(1 for dm in plan['domains'][1:] if dm['gated'])
         res.count(('design', i, str(summary)), nontrivial=gated >= 1 and len(seq) >= 2, hist={'gated_domains': gated})
         if i < 2:
